@@ -50,6 +50,7 @@ VARIABLES
   taken,     \* set of <<index, term, hash, size>> snapshots produced by a node's own takeSnapshot
   sopen,     \* node -> label index of the snapshot it last opened for reading
   isidx,     \* node -> label index carried by the InstallSnapshot request it is handling
+  wlab,      \* node -> label of the snapshot file it is receiving (created by InstallSnapshot, not yet closed)
   lastae,    \* node -> the AppendEntries call it handled last while quiescent, until its next status
   s7,        \* set of nodes on which the signature of known finding S7 occurred
   vrep,      \* node -> time at which it was last handed a replication reply from a voter of its configuration
@@ -59,7 +60,7 @@ VARIABLES
   bad        \* set of violation records
 
 vars == <<l, meta, dur, pstate, maxterm, votes, applied, cursor, leaders, lfirst, committed, cterm,
-          reqs, hpre, stat, inv, wdone, rdone, retd, dead, mtrack, mwait, finals, healed, s5, hl, fsmc, taken, sopen, isidx, lastae, s7, vrep, rlast, rtime, pgr, bad>>
+          reqs, hpre, stat, inv, wdone, rdone, retd, dead, mtrack, mwait, finals, healed, s5, hl, fsmc, taken, sopen, isidx, wlab, lastae, s7, vrep, rlast, rtime, pgr, bad>>
 
 -----------------------------------------------------------------------------
 Ev == Trace[l]
@@ -734,7 +735,10 @@ OwnCfgIdxUpTo(n, k) == LET lg == Log(n) IN {j \in (lg.base + 1)..Min(k, LastIdx(
 \* chunk of an older snapshot to the partial file of a newer one when the offsets match, and
 \* takes the boundary from the request).  The repository's TestInstallSnapshotSuccess relies on
 \* exactly this, so it cannot be repaired without editing that test.
-KF_S7 == InstSnapshot /\ Ev.node \in DOMAIN isidx /\ isidx[Ev.node] # Ev.index
+KF_S7 == \/ InstSnapshot /\ Ev.node \in DOMAIN isidx /\ isidx[Ev.node] # Ev.index
+         \* the same mechanism seen where it happens: bytes of a request that carries another label
+         \* are written into the file being received (the published label can equal the last request's)
+         \/ Is("snap_write") /\ Ev.node \in DOMAIN wlab /\ Ev.fid = wlab[Ev.node].fid /\ Ev.node \in DOMAIN isidx /\ isidx[Ev.node] # wlab[Ev.node].index
 
 C10_Snapshot ==
   IF ~(Is("snap_close") /\ ~Has("err")) THEN {} ELSE
@@ -825,6 +829,9 @@ NewBad ==
                       /\ b.c \in {"InstalledSnapshotNotFromSender", "SnapshotNotExact", "RestoredStateNotExact", "OperationAppliedTwice",
                                   "OperationSkipped", "IndexMovedBackwards", "SnapshotNotASnapshot", "InstalledOlderThanApplied", "ApplyOrder"}
                    THEN [b EXCEPT !.kf = "S7"]
+                 \* a member whose state machine was restored from such bytes never equals the leader's
+                 ELSE IF b.p = "C15" /\ b.c = "NotConvergedWithin4B" /\ s7 # {}
+                   THEN [b EXCEPT !.kf = "S7"]
                  ELSE b : b \in all}
   IN {b \in tagged : b.p \in Props \/ b.p \in {"X", "W"}}
 
@@ -836,7 +843,7 @@ Init ==
   /\ dur = <<>> /\ pstate = <<>> /\ maxterm = <<>> /\ votes = {} /\ applied = <<>> /\ cursor = <<>>
   /\ leaders = <<>> /\ lfirst = {} /\ committed = <<>> /\ cterm = <<>> /\ reqs = <<>> /\ hpre = <<>> /\ stat = <<>>
   /\ inv = <<>> /\ wdone = {} /\ rdone = {} /\ retd = {} /\ dead = {} /\ mtrack = <<>> /\ mwait = <<>>
-  /\ finals = <<>> /\ healed = FALSE /\ s5 = FALSE /\ hl = NoHealthy /\ fsmc = <<>> /\ taken = {} /\ sopen = <<>> /\ isidx = <<>> /\ lastae = <<>> /\ s7 = {} /\ vrep = <<>> /\ rlast = <<>> /\ rtime = <<>> /\ pgr = <<>> /\ bad = {}
+  /\ finals = <<>> /\ healed = FALSE /\ s5 = FALSE /\ hl = NoHealthy /\ fsmc = <<>> /\ taken = {} /\ sopen = <<>> /\ isidx = <<>> /\ wlab = <<>> /\ lastae = <<>> /\ s7 = {} /\ vrep = <<>> /\ rlast = <<>> /\ rtime = <<>> /\ pgr = <<>> /\ bad = {}
 
 Next ==
   /\ l <= Len(Trace)
@@ -884,6 +891,10 @@ Next ==
   /\ isidx' = (IF Is("scenario") THEN <<>>
               ELSE IF Is("deliver") /\ Ev.kind = "is" /\ Ev.id \in DOMAIN reqs THEN Put(isidx, Ev.to, reqs[Ev.id].index) ELSE isidx)
   /\ s7' = (IF Is("scenario") THEN {} ELSE IF KF_S7 THEN s7 \cup {Ev.node} ELSE s7)
+  /\ wlab' = (IF Is("scenario") THEN <<>>
+              ELSE IF Is("snap_new") /\ ~Has("err") /\ Ev.ctx = "h" THEN Put(wlab, Ev.node, [fid |-> Ev.fid, index |-> Ev.index])
+              ELSE IF (Is("snap_close") \/ Is("snap_discard") \/ Is("crash") \/ Is("restart")) /\ Ev.node \in DOMAIN wlab THEN Del(wlab, Ev.node)
+              ELSE wlab)
   /\ lastae' = NextLastae
 
 Spec == Init /\ [][Next]_vars
